@@ -36,7 +36,13 @@ const MODELS: [&str; 4] = [
     "2016_CHEVROLET_Volt_Charge_Depleting.bin",
     "2016_CHEVROLET_Volt_Charge_Sustaining.bin",
 ];
-const MODEL_DIR: &str = "/repo/rust/routee-compass-powertrain/src/routee/test";
+/// root of the source tree under test (`VERIF_REPO`, default /repo): model files and bundled configuration
+fn repo() -> String {
+    std::env::var("VERIF_REPO").unwrap_or_else(|_| "/repo".to_string())
+}
+fn model_dir() -> String {
+    format!("{}/rust/routee-compass-powertrain/src/routee/test", repo())
+}
 const REL: f64 = 1.0e-9;
 
 /// canonical double: both zeros are `0`
@@ -52,7 +58,8 @@ fn flist(xs: &[f64]) -> String {
     let mut s = xs.len().to_string();
     for x in xs {
         s.push(' ');
-        s.push_str(&fbits(*x));
+        // inputs cross as raw bit patterns (NaN included)
+        s.push_str(&x.to_bits().to_string());
     }
     s
 }
@@ -121,12 +128,13 @@ impl Table {
         self.data.iter().fold(0.0f64, |m, v| m.max(v.abs()))
     }
     fn rows2(&self) -> Vec<Vec<f64>> {
-        let ny = self.axes[1].len();
+        // rows by the data's own shape, so that a corrupted axis gives a genuine x / y shape mismatch
+        let ny = self.dshape[1];
         self.data.chunks(ny.max(1)).map(|c| c.to_vec()).collect()
     }
     fn rows3(&self) -> Vec<Vec<Vec<f64>>> {
-        let ny = self.axes[1].len();
-        let nz = self.axes[2].len();
+        let ny = self.dshape[1];
+        let nz = self.dshape[2];
         self.data
             .chunks((ny * nz).max(1))
             .map(|c| c.chunks(nz.max(1)).map(|r| r.to_vec()).collect())
@@ -487,7 +495,7 @@ fn eval(b: Built, raw: bool, s: usize, pts: &[Vec<f64>]) -> Vec<Out> {
 }
 
 fn in_range(t: &Table, p: &[f64]) -> bool {
-    p.len() == t.d() && t.axes.iter().zip(p).all(|(g, x)| g[0] <= *x && *x <= *g.last().unwrap())
+    p.len() == t.d() && t.axes.iter().zip(p).all(|(g, x)| !g.is_empty() && g[0] <= *x && *x <= *g.last().unwrap())
 }
 
 /// independent cell lookup: the lower index `l <= len-2` of a cell `[g[l], g[l+1]]` containing x
@@ -594,14 +602,18 @@ fn oracle_linear(ctx: &mut Ctx, idx: usize, tag: &str, t: &Table, pts: &Points, 
 
 fn case_fni(ctx: &mut Ctx, idx: usize, g: Vec<f64>, t: f64) {
     let r = catch_unwind(AssertUnwindSafe(|| find_nearest_index(&g, t)));
-    // `arr.len() - 2` on a one-point grid: a panic with overflow checks, usize::MAX without them;
-    // both are the model's `panic` (underflow) outcome
     let out = match &r {
-        Ok(Ok(i)) if *i >= g.len() => "panic".to_string(),
         Ok(Ok(i)) => format!("ok {}", i),
         Ok(Err(_)) => "err".to_string(),
         Err(_) => "panic".to_string(),
     };
+    // regression (fixed): a one-point grid hit exactly underflowed `arr.len() - 2` (panic with overflow
+    // checks, usize::MAX without); more generally the lookup never panics and never leaves the grid
+    match &r {
+        Ok(Ok(i)) if *i >= g.len() => ctx.fail(idx, "find_nearest_index/single_point_underflow", format!("grid {:?} target {} gave the out-of-range index {}", g, t, i)),
+        Err(_) => ctx.fail(idx, "find_nearest_index/single_point_underflow", format!("grid {:?} target {} panicked", g, t)),
+        _ => {}
+    }
     ctx.emit(idx, format!("fni {} {}", flist(&g), fbits(t)), out);
     ctx.count("fni");
     ctx.nontrivial(&format!("fni {} {}", flist(&g), fbits(t)));
@@ -616,12 +628,15 @@ fn case_fni(ctx: &mut Ctx, idx: usize, g: Vec<f64>, t: f64) {
 
 fn case_lin(ctx: &mut Ctx, idx: usize, a: f64, b: f64, n: usize) {
     let r = catch_unwind(AssertUnwindSafe(|| linspace(a, b, n)));
-    // n = 0: `n - 1` underflows: a panic with overflow checks, an empty vector without them
     let out = match &r {
-        Ok(v) if n == 0 && v.is_empty() => "panic".to_string(),
         Ok(v) => format!("ok {} {}", v.len(), v.iter().map(|x| fo(*x)).collect::<Vec<_>>().join(" ")).trim_end().to_string(),
         Err(_) => "panic".to_string(),
     };
+    // regression (fixed): n = 0 underflowed `n - 1`
+    match &r {
+        Ok(v) if v.len() == n => {}
+        other => ctx.fail(idx, "linspace/zero_underflow", format!("linspace({}, {}, {}) gave {:?}", a, b, n, other.as_ref().map_err(|_| "panic"))),
+    }
     ctx.emit(idx, format!("lin {} {} {}", fbits(a), fbits(b), n), out);
     ctx.count("linspace");
     if let Ok(v) = &r {
@@ -665,7 +680,7 @@ fn case_interp(ctx: &mut Ctx, idx: usize, t: &Table, nd: bool, raw: bool, s: usi
             if raw && t.axes.iter().all(|a| a.len() >= 2) {
                 // the raw `linear` methods are public; outside points are not rejected there
                 for (p, o) in pts.pts.iter().zip(&outs) {
-                    if !in_range(t, p) && *o != Out::Err {
+                    if p.len() == t.d() && !in_range(t, p) && *o != Out::Err {
                         ctx.fail(idx, "interp/raw_linear_outside_not_rejected", format!("{}::linear called directly with {:?} outside the grid gave {:?} instead of Err", name, p, o));
                     }
                 }
@@ -731,13 +746,14 @@ struct Underlying {
     bundled: Vec<SgSpec>,
 }
 
-const BUNDLED_CONFIG: &str = "/repo/python/nrel/routee/compass/resources/osm_default_energy.toml";
-const BUNDLED_DIR: &str = "/repo/python/nrel/routee/compass/resources";
+fn bundled_dir() -> String {
+    format!("{}/python/nrel/routee/compass/resources", repo())
+}
 
 /// the `[[traversal.vehicles]]` entries that use `model_type.interpolate`, read with a line scanner
 /// (key = value pairs of the vehicle table and of its interpolate sub-table)
 fn bundled_vehicles() -> Vec<std::collections::BTreeMap<String, String>> {
-    let Ok(text) = std::fs::read_to_string(BUNDLED_CONFIG) else { return vec![] };
+    let Ok(text) = std::fs::read_to_string(format!("{}/osm_default_energy.toml", bundled_dir())) else { return vec![] };
     let mut out = vec![];
     let mut cur: Option<std::collections::BTreeMap<String, String>> = None;
     let mut in_vehicle = false;
@@ -804,7 +820,7 @@ fn train_stub(seed: u64, k: usize, dir: &str) -> String {
 
 impl Underlying {
     fn load(seed: u64, stubs: usize) -> Underlying {
-        let mut paths: Vec<String> = MODELS.iter().map(|m| format!("{}/{}", MODEL_DIR, m)).collect();
+        let mut paths: Vec<String> = MODELS.iter().map(|m| format!("{}/{}", model_dir(), m)).collect();
         for k in 0..stubs {
             paths.push(train_stub(seed, k, "work/C14_stub"));
         }
@@ -837,7 +853,7 @@ impl Underlying {
             ) else {
                 continue;
             };
-            let path = format!("{}/{}", BUNDLED_DIR, get("model_input_file"));
+            let path = format!("{}/{}", bundled_dir(), get("model_input_file"));
             let Ok(model) = SmartcoreSpeedGradeModel::new(&path, SpeedUnit::MilesPerHour, GradeUnit::Decimal, EnergyRateUnit::GallonsGasolinePerMile) else {
                 continue;
             };
@@ -981,15 +997,14 @@ fn case_sg(ctx: &mut Ctx, idx: usize, und: &Underlying, spec: &SgSpec, queries: 
     ctx.count(&format!("sg_model_units_{}_{}", spec.su, spec.gu));
     let model = match built {
         Err(_) => {
+            // never expected: the constructor returns an error for every degenerate configuration
+            ctx.fail(idx, "speed_grade/new_panics", format!("InterpolationSpeedGradeModel::new panicked for {}x{} bins, speed ({}, {}), grade ({}, {})", spec.sb, spec.gb, spec.s0, spec.s1, spec.g0, spec.g1));
             ctx.emit(idx, line, "new panic".to_string());
             ctx.count("sg_new_panics");
             return;
         }
         Ok(Err(_)) => {
-            // zero bins: `n - 1` underflow in linspace (panic with overflow checks, an empty grid that the
-            // constructor rejects without them): the model's `panic`
-            let out = if spec.sb == 0 || spec.gb == 0 { "new panic" } else { "new err" };
-            ctx.emit(idx, line, out.to_string());
+            ctx.emit(idx, line, "new err".to_string());
             ctx.count("sg_new_rejects");
             return;
         }
@@ -1016,12 +1031,10 @@ fn case_sg(ctx: &mut Ctx, idx: usize, und: &Underlying, spec: &SgSpec, queries: 
 
     // oracle
     if spec.sb < 2 || spec.gb < 2 {
-        for (q, r) in queries.iter().zip(&results) {
-            if let Err(Out::Panic) = r {
-                ctx.fail(idx, "speed_grade/single_bin_panics", format!("grid with {}x{} bins was accepted by new() but predict({} {}, {} {}) panics", spec.sb, spec.gb, q.s, q.su, q.g, q.gu));
-                break;
-            }
-        }
+        // regression (fixed): a grid with a single bin was accepted and every predict panicked; it must be
+        // rejected by new() (handled above), so reaching this point is the defect
+        let panics = results.iter().any(|r| matches!(r, Err(Out::Panic)));
+        ctx.fail(idx, "speed_grade/single_bin_panics", format!("grid with {}x{} bins was accepted by new(){}", spec.sb, spec.gb, if panics { " and predict panics" } else { "" }));
         return;
     }
     let scale = u.iter().flatten().fold(0.0f64, |m, v| m.max(v.abs()));
@@ -1152,6 +1165,347 @@ fn gen_queries(rng: &mut Rng, spec: &SgSpec, n: usize) -> Vec<Query> {
 }
 
 // ---------------------------------------------------------------------------------------------
+
+// ---------------------------------------------------------------------------------------------
+// model loading: SmartcoreSpeedGradeModel, load_prediction_model, PredictionModelRecord
+
+#[derive(Clone)]
+enum Mt {
+    Smartcore,
+    Onnx,
+    Interpolate(Box<Mt>, f64, f64, usize, f64, f64, usize),
+}
+
+impl Mt {
+    fn real(&self) -> ModelType {
+        match self {
+            Mt::Smartcore => ModelType::Smartcore,
+            Mt::Onnx => ModelType::Onnx,
+            Mt::Interpolate(u, a, b, n, c, d, m) => ModelType::Interpolate {
+                underlying_model_type: Box::new(u.real()),
+                speed_lower_bound: Speed::new(*a),
+                speed_upper_bound: Speed::new(*b),
+                speed_bins: *n,
+                grade_lower_bound: Grade::new(*c),
+                grade_upper_bound: Grade::new(*d),
+                grade_bins: *m,
+            },
+        }
+    }
+    fn text(&self) -> String {
+        match self {
+            Mt::Smartcore => "S".to_string(),
+            Mt::Onnx => "O".to_string(),
+            Mt::Interpolate(u, a, b, n, c, d, m) => format!("I {} {} {} {} {} {} {}", u.text(), fbits(*a), fbits(*b), n, fbits(*c), fbits(*d), m),
+        }
+    }
+    fn has_onnx(&self) -> bool {
+        match self {
+            Mt::Smartcore => false,
+            Mt::Onnx => true,
+            Mt::Interpolate(u, ..) => u.has_onnx(),
+        }
+    }
+    /// every interpolation level has at least two bins per axis and increasing bounds
+    fn grids_valid(&self) -> bool {
+        match self {
+            Mt::Interpolate(u, a, b, n, c, d, m) => u.grids_valid() && *n >= 2 && *m >= 2 && a < b && c < d,
+            _ => true,
+        }
+    }
+    /// the grid of the innermost interpolation level (the one filled from the random forest)
+    fn innermost_grid(&self) -> Option<(Vec<f64>, Vec<f64>)> {
+        match self {
+            Mt::Interpolate(u, a, b, n, c, d, m) => match **u {
+                Mt::Interpolate(..) => u.innermost_grid(),
+                _ => Some((linspace(*a, *b, *n), linspace(*c, *d, *m))),
+            },
+            _ => None,
+        }
+    }
+    fn depth(&self) -> usize {
+        match self {
+            Mt::Interpolate(u, ..) => 1 + u.depth(),
+            _ => 0,
+        }
+    }
+}
+
+fn gen_mt(rng: &mut Rng, su: &SpeedUnit, gu: &GradeUnit, depth: usize) -> Mt {
+    let r = rng.below(10);
+    if depth >= 2 || r < 3 {
+        if rng.chance(1, 12) {
+            Mt::Onnx
+        } else {
+            Mt::Smartcore
+        }
+    } else {
+        let mph = SpeedUnit::MilesPerHour.convert(&Speed::new(1.0), su).as_f64();
+        let dec = GradeUnit::Decimal.convert(&Grade::new(1.0), gu).as_f64();
+        let s0 = if rng.chance(1, 2) { 0.0 } else { rng.small_decimal(20, 1) * mph };
+        let mut s1 = s0 + (rng.small_decimal(80, 1) + 20.0) * mph;
+        let g0 = -(rng.small_decimal(25, 2) + 0.01) * dec;
+        let mut g1 = (rng.small_decimal(25, 2) + 0.01) * dec;
+        let mut sb = 2 + rng.below(9);
+        let mut gb = 2 + rng.below(9);
+        // degenerate configurations: too few bins, bounds not increasing
+        match rng.below(16) {
+            0 => sb = rng.below(2),
+            1 => gb = rng.below(2),
+            2 => s1 = s0,
+            3 => g1 = g0 - 0.5 * dec,
+            _ => {}
+        }
+        Mt::Interpolate(Box::new(gen_mt(rng, su, gu, depth + 1)), s0, s1, sb, g0, g1, gb)
+    }
+}
+
+const D_UNITS: [DistanceUnit; 5] = [DistanceUnit::Meters, DistanceUnit::Kilometers, DistanceUnit::Miles, DistanceUnit::Inches, DistanceUnit::Feet];
+
+fn points_text(tbl: &[(f64, f64, f64)]) -> String {
+    let mut s = tbl.len().to_string();
+    for (a, b, c) in tbl {
+        s.push_str(&format!(" {} {} {}", fbits(*a), fbits(*b), fbits(*c)));
+    }
+    s
+}
+
+/// an unreadable model file: missing, or not a serialised forest
+fn bad_model_path(rng: &mut Rng) -> String {
+    if rng.chance(1, 2) {
+        "work/C14_stub/does_not_exist.bin".to_string()
+    } else {
+        std::fs::create_dir_all("work/C14_stub").ok();
+        std::fs::write("work/C14_stub/garbage.bin", b"this is not a random forest").ok();
+        "work/C14_stub/garbage.bin".to_string()
+    }
+}
+
+/// `SmartcoreSpeedGradeModel::{new, predict}`: every model unit x query unit combination
+fn case_sc(ctx: &mut Ctx, idx: usize, und: &Underlying, rng: &mut Rng) {
+    let m = rng.below(und.paths.len());
+    let (su, gu, ru) = (*rng.pick(&S), *rng.pick(&G), *rng.pick(&ER));
+    let file_ok = !rng.chance(1, 10);
+    let path = if file_ok { und.paths[m].clone() } else { bad_model_path(rng) };
+    let nq = 4;
+    let mut qs = vec![];
+    let mut tbl = vec![];
+    for _ in 0..nq {
+        let (qsu, qgu) = (*rng.pick(&S), *rng.pick(&G));
+        let s = if rng.chance(1, 6) { rng.range(0, 120) as f64 } else { rng.uniform(-10.0, 150.0) };
+        let g = if rng.chance(1, 6) { rng.range(-30, 30) as f64 } else { rng.uniform(-40.0, 40.0) };
+        // the forest's value at the converted point (conversion by the real unit code: C09)
+        let sv = qsu.convert(&Speed::new(s), &su).as_f64();
+        let gv = qgu.convert(&Grade::new(g), &gu).as_f64();
+        tbl.push((sv, gv, und.rate(m, sv, gv)));
+        qs.push((s, qsu, g, qgu));
+    }
+    let mut line = format!("sc {} {} {} {} {} {}", su, gu, ru, if file_ok { 1 } else { 0 }, points_text(&tbl), qs.len());
+    for (s, qsu, g, qgu) in &qs {
+        line.push_str(&format!(" {} {} {} {}", fbits(*s), qsu, fbits(*g), qgu));
+    }
+    ctx.count(if file_ok { "smartcore_load_ok" } else { "smartcore_load_bad_file" });
+    ctx.count(&format!("smartcore_model_units_{}_{}", su, gu));
+    let built = catch_unwind(AssertUnwindSafe(|| SmartcoreSpeedGradeModel::new(&path, su, gu, ru)));
+    let model = match built {
+        Ok(Ok(m)) => m,
+        Ok(Err(_)) => {
+            if file_ok {
+                ctx.fail(idx, "smartcore/load_fails", format!("bundled model {} did not load", path));
+            }
+            ctx.emit(idx, line, "new err".to_string());
+            return;
+        }
+        Err(_) => {
+            ctx.fail(idx, "smartcore/load_panics", format!("SmartcoreSpeedGradeModel::new({}) panicked", path));
+            ctx.emit(idx, line, "new panic".to_string());
+            return;
+        }
+    };
+    if !file_ok {
+        ctx.fail(idx, "smartcore/loads_bad_file", format!("unreadable file {} gave a model", path));
+    }
+    let mut outs = vec![];
+    for ((s, qsu, g, qgu), (_, _, want)) in qs.iter().zip(&tbl) {
+        let r = catch_unwind(AssertUnwindSafe(|| model.predict((Speed::new(*s), *qsu), (Grade::new(*g), *qgu))));
+        outs.push(match r {
+            Ok(Ok((v, unit))) => {
+                ctx.count(&format!("smartcore_query_units_{}_{}", qsu, qgu));
+                // oracle: the forest evaluated at the converted inputs, tagged with the model's own unit
+                if v.as_f64().to_bits() != want.to_bits() || unit != ru {
+                    ctx.fail(idx, "smartcore/unit_conversion", format!("predict({} {}, {} {}) on a model in {}/{} gave {} {} but the forest at the converted point gives {}", s, qsu, g, qgu, su, gu, v, unit, want));
+                }
+                format!("ok {} {}", fo(v.as_f64()), unit)
+            }
+            Ok(Err(_)) => {
+                ctx.fail(idx, "smartcore/predict_fails", format!("predict({} {}, {} {}) failed", s, qsu, g, qgu));
+                "err".to_string()
+            }
+            Err(_) => {
+                ctx.fail(idx, "smartcore/predict_fails", format!("predict({} {}, {} {}) panicked", s, qsu, g, qgu));
+                "panic".to_string()
+            }
+        });
+    }
+    ctx.nontrivial(&line);
+    ctx.emit(idx, line, outs.join(" "));
+}
+
+/// `load_prediction_model`: every arm, nested model types, ideal rate given / swept, adjustment given /
+/// default, unreadable files, degenerate bins; then the record's prediction model and its `predict`
+fn case_lpm(ctx: &mut Ctx, idx: usize, und: &Underlying, rng: &mut Rng) {
+    use routee_compass_powertrain::routee::prediction::load_prediction_model;
+    let m = rng.below(und.paths.len());
+    let (su, gu, ru) = (*rng.pick(&S), *rng.pick(&G), *rng.pick(&ER));
+    let mt = gen_mt(rng, &su, &gu, 0);
+    let file_ok = !rng.chance(1, 12);
+    let path = if file_ok { und.paths[m].clone() } else { bad_model_path(rng) };
+    let ideal = if rng.chance(1, 2) { Some(rng.small_decimal(1, 4) + 0.0001) } else { None };
+    let adj = if rng.chance(1, 2) { Some(1.0 + rng.small_decimal(1, 3)) } else { None };
+    // queries
+    let mph = SpeedUnit::MilesPerHour.convert(&Speed::new(1.0), &su).as_f64();
+    let dec = GradeUnit::Decimal.convert(&Grade::new(1.0), &gu).as_f64();
+    let mut qs = vec![];
+    for _ in 0..4 {
+        let (qsu, qgu) = if rng.chance(1, 2) { (su, gu) } else { (*rng.pick(&S), *rng.pick(&G)) };
+        let sv = rng.uniform(-10.0, 130.0) * mph;
+        let gv = rng.uniform(-0.4, 0.4) * dec;
+        let s = su.convert(&Speed::new(sv), &qsu).as_f64();
+        let g = gu.convert(&Grade::new(gv), &qgu).as_f64();
+        let d = rng.small_decimal(50, 2) + 0.01;
+        qs.push((s, qsu, g, qgu, d, *rng.pick(&D_UNITS)));
+    }
+    // the forest at every point the loading and the queries can evaluate it at
+    let mut tbl: Vec<(f64, f64, f64)> = vec![];
+    let mut add = |s: f64, g: f64| tbl.push((s, g, und.rate(m, s, g)));
+    for i in 20..80 {
+        add(SpeedUnit::MilesPerHour.convert(&Speed::new(i as f64), &su).as_f64(), GradeUnit::Percent.convert(&Grade::ZERO, &gu).as_f64());
+    }
+    if let Some((xs, ys)) = mt.innermost_grid() {
+        for x in &xs {
+            for y in &ys {
+                add(*x, *y);
+            }
+        }
+    }
+    for (s, qsu, g, qgu, _, _) in &qs {
+        add(qsu.convert(&Speed::new(*s), &su).as_f64(), qgu.convert(&Grade::new(*g), &gu).as_f64());
+    }
+    let opt = |o: &Option<f64>| match o {
+        Some(x) => format!("s {}", fbits(*x)),
+        None => "n".to_string(),
+    };
+    let mut line = format!("lpm {} {} {} {} {} {} {} {} {}", mt.text(), su, gu, ru, if file_ok { 1 } else { 0 }, opt(&ideal), opt(&adj), points_text(&tbl), qs.len());
+    for (s, qsu, g, qgu, d, du) in &qs {
+        line.push_str(&format!(" {} {} {} {} {} {}", fbits(*s), qsu, fbits(*g), qgu, fbits(*d), du));
+    }
+    ctx.count(&format!("load_model_type_depth_{}_{}", mt.depth(), if mt.has_onnx() { "onnx" } else { "smartcore" }));
+    ctx.count(match (ideal.is_some(), adj.is_some()) {
+        (true, true) => "load_ideal_given_adjustment_given",
+        (true, false) => "load_ideal_given_adjustment_default",
+        (false, true) => "load_ideal_swept_adjustment_given",
+        (false, false) => "load_ideal_swept_adjustment_default",
+    });
+    let loaded = catch_unwind(AssertUnwindSafe(|| {
+        load_prediction_model("m".to_string(), &path, mt.real(), su, gu, ru, ideal.map(EnergyRate::new), adj, None)
+    }));
+    let should_load = file_ok && !mt.has_onnx() && mt.grids_valid();
+    let rec = match loaded {
+        Ok(Ok(r)) => r,
+        Ok(Err(_)) => {
+            if should_load {
+                ctx.fail(idx, "load/rejects_valid", format!("load_prediction_model rejected the valid configuration {}", mt.text()));
+            }
+            ctx.count("load_rejected");
+            ctx.emit(idx, line, "err".to_string());
+            return;
+        }
+        Err(_) => {
+            ctx.fail(idx, "load/panics", format!("load_prediction_model panicked for {}", mt.text()));
+            ctx.emit(idx, line, "panic".to_string());
+            return;
+        }
+    };
+    if !should_load {
+        ctx.fail(idx, "load/accepts_invalid", format!("load_prediction_model accepted file_ok={} {}", file_ok, mt.text()));
+    }
+    ctx.count("load_ok");
+    // oracle on the record
+    let ideal_rate = rec.ideal_energy_rate.as_f64();
+    match ideal {
+        Some(x) => {
+            if ideal_rate != x {
+                ctx.fail(idx, "load/ideal_rate", format!("configured ideal rate {} became {}", x, ideal_rate));
+            }
+        }
+        None => {
+            let mut mn = f64::MAX;
+            for i in 20..80 {
+                if let Ok((r, _)) = rec.prediction_model.predict((Speed::new(i as f64), SpeedUnit::MilesPerHour), (Grade::ZERO, GradeUnit::Percent)) {
+                    mn = mn.min(r.as_f64());
+                }
+            }
+            if ideal_rate != mn {
+                ctx.fail(idx, "load/ideal_rate", format!("swept ideal rate {} but the minimum of the sweep is {}", ideal_rate, mn));
+            }
+        }
+    }
+    if rec.real_world_energy_adjustment != adj.unwrap_or(1.0) {
+        ctx.fail(idx, "load/adjustment", format!("adjustment {:?} became {}", adj, rec.real_world_energy_adjustment));
+    }
+    if format!("{} {} {}", rec.speed_unit, rec.grade_unit, rec.energy_rate_unit) != format!("{} {} {}", su, gu, ru) {
+        ctx.fail(idx, "load/units", "the record's units differ from the configured ones".to_string());
+    }
+    // the Interpolate arm hands bounds and bins to the interpolation model in their places
+    let twin = match &mt {
+        Mt::Interpolate(u, a, b, n, c, d, mm) if matches!(**u, Mt::Smartcore) => {
+            InterpolationSpeedGradeModel::new(&path, ModelType::Smartcore, "t".to_string(), su, (Speed::new(*a), Speed::new(*b)), *n, gu, (Grade::new(*c), Grade::new(*d)), *mm, ru).ok()
+        }
+        _ => None,
+    };
+    let mut outs = vec![format!("ok {} {} {} {} {}", fo(ideal_rate), fo(rec.real_world_energy_adjustment), rec.speed_unit, rec.grade_unit, rec.energy_rate_unit)];
+    for (k, (s, qsu, g, qgu, d, du)) in qs.iter().enumerate() {
+        let p = catch_unwind(AssertUnwindSafe(|| rec.prediction_model.predict((Speed::new(*s), *qsu), (Grade::new(*g), *qgu))));
+        let e = catch_unwind(AssertUnwindSafe(|| rec.predict((Speed::new(*s), *qsu), (Grade::new(*g), *qgu), (Distance::new(*d), *du))));
+        let ptxt = match &p {
+            Ok(Ok((v, unit))) => format!("ok {} {}", fo(v.as_f64()), unit),
+            Ok(Err(_)) => "err".to_string(),
+            Err(_) => "panic".to_string(),
+        };
+        let etxt = match &e {
+            Ok(Ok((v, unit))) => format!("ok {} {}", fo(v.as_f64()), unit),
+            Ok(Err(_)) => "err".to_string(),
+            Err(_) => "panic".to_string(),
+        };
+        match (&p, &e) {
+            (Ok(Ok((rate, runit))), Ok(Ok((energy, eunit)))) => {
+                let dist = du.convert(&Distance::new(*d), &ru.associated_distance_unit()).as_f64();
+                let want = rate.as_f64() * rec.real_world_energy_adjustment * dist;
+                if (energy.as_f64() - want).abs() > 1e-12 * want.abs() + 1e-300 || *eunit != ru.associated_energy_unit() || *runit != ru {
+                    ctx.fail(idx, "load/record_energy", format!("rate {} x adjustment {} x {} {} gave {} {}", rate, rec.real_world_energy_adjustment, d, du, energy, eunit));
+                }
+                if let Mt::Smartcore = mt {
+                    let want = tbl[tbl.len() - qs.len() + k].2;
+                    if rate.as_f64().to_bits() != want.to_bits() {
+                        ctx.fail(idx, "smartcore/unit_conversion", format!("loaded smartcore model: predict({} {}, {} {}) = {} but the forest at the converted point gives {}", s, qsu, g, qgu, rate, want));
+                    }
+                }
+                if let Some(t) = &twin {
+                    if let Ok((w, _)) = t.predict((Speed::new(*s), *qsu), (Grade::new(*g), *qgu)) {
+                        if w.as_f64().to_bits() != rate.as_f64().to_bits() {
+                            ctx.fail(idx, "load/interpolate_params", format!("model loaded through load_prediction_model gives {} but InterpolationSpeedGradeModel::new with the same bounds and bins gives {}", rate, w));
+                        }
+                        ctx.count("load_oracle_interpolate_twin");
+                    }
+                }
+            }
+            _ => ctx.fail(idx, "load/predict_fails", format!("loaded model: predict({} {}, {} {}) gave {} / {}", s, qsu, g, qgu, ptxt, etxt)),
+        }
+        outs.push(format!("{} {}", ptxt, etxt));
+    }
+    ctx.nontrivial(&line);
+    ctx.emit(idx, line, outs.join(" "));
+}
 
 fn plain_points(pts: Vec<Vec<f64>>) -> Points {
     let n = pts.len();
@@ -1343,13 +1697,35 @@ pub fn run(ctx: &mut Ctx) -> &'static str {
             plain_points(vec![vec![0.5; d]])
         };
         let raw = k % 5 == 4;
-        let s = if d == 1 && k % 3 == 0 { 1 + rng.below(4) } else if k % 37 == 0 { rng.below(5) } else { 1 };
+        let s = if d == 1 && k % 3 == 0 { 1 + rng.below(4) } else if k % 11 == 0 { rng.below(5) } else { 1 };
+        let mut pts = pts;
+        if k % 13 == 5 {
+            // a point of the wrong dimensionality (validate_inputs' length arms; the raw methods index it)
+            let i = rng.below(pts.pts.len());
+            if rng.chance(1, 2) {
+                pts.pts[i].pop();
+            } else {
+                pts.pts[i].push(0.25);
+            }
+            ctx.count("point_wrong_length");
+        }
         let a = match ctx.begin() {
             Some(idx) => case_interp(ctx, idx, &t, false, raw, s, &pts).map(|o| (idx, o)),
             None => None,
         };
+        // the N-D interpolator on the same data; sometimes with one grid axis too few / too many
+        let mut tn = t.clone();
+        if k % 17 == 3 {
+            if rng.chance(1, 2) {
+                tn.axes.pop();
+                ctx.count("corrupt_nd_grid_missing");
+            } else {
+                tn.axes.push(vec![0.0, 1.0]);
+                ctx.count("corrupt_nd_grid_extra");
+            }
+        }
         let b = match ctx.begin() {
-            Some(idx) => case_interp(ctx, idx, &t, true, raw, if s > 1 { 1 } else { s }, &pts),
+            Some(idx) => case_interp(ctx, idx, &tn, true, raw, s, &pts),
             None => None,
         };
         // ND agrees with the fixed-dimension interpolator on the same data (validated linear path)
@@ -1377,6 +1753,63 @@ pub fn run(ctx: &mut Ctx) -> &'static str {
         let t = gen_table(&mut rng, d, 3, false);
         let pts = gen_points(&mut rng, &t, 3, ctx);
         case_interp(ctx, idx, &t, true, k % 6 == 5, 1, &pts);
+    }
+    // ---- N-D tables with a NaN value (the `is_nan` guard of InterpND::linear; 1-3-D propagate NaN)
+    for k in 0..ctx.n(120, 3000) {
+        let mut rng = Rng::for_case(ctx.seed, 14, 2_000_000 + k as u64);
+        let d = 1 + rng.below(3);
+        let mut t = gen_table(&mut rng, d, 4, false);
+        t.multilinear = None;
+        let n = t.data.len();
+        for _ in 0..1 + rng.below(2) {
+            t.data[rng.below(n)] = f64::NAN;
+        }
+        let mut pts = vec![];
+        for _ in 0..5 {
+            let p: Vec<f64> = (0..d)
+                .map(|a| {
+                    let kind = if rng.chance(1, 3) { Kind::OnLine } else { Kind::Inside };
+                    gen_coord(&mut rng, &t.axes[a], kind)
+                })
+                .collect();
+            pts.push(p);
+        }
+        let pts = plain_points(pts);
+        for nd in [false, true] {
+            let Some(idx) = ctx.begin() else { continue };
+            let line = format!("{} v L {} {}", if nd { "in".to_string() } else { format!("i{}", d) }, table_text(&t, nd), pts_text(&pts.pts));
+            match build(&t, nd) {
+                Err(is_err) => ctx.emit(idx, line, if is_err { "new err".to_string() } else { "new panic".to_string() }),
+                Ok(b) => {
+                    let outs = eval(b, false, 1, &pts.pts);
+                    for o in &outs {
+                        ctx.count(match o {
+                            Out::Ok(v) if v.is_nan() => "nan_table_result_nan",
+                            Out::Ok(_) => "nan_table_result_value",
+                            Out::Err => "nan_table_rejected",
+                            Out::Panic => "nan_table_panic",
+                        });
+                        if *o == Out::Panic {
+                            ctx.fail(idx, "interp/panic_validated", format!("table with NaN values panicked on the validated path ({}-D, nd={})", d, nd));
+                        }
+                    }
+                    ctx.nontrivial(&line);
+                    ctx.emit(idx, line, outs.iter().map(|o| o.text()).collect::<Vec<_>>().join(" "));
+                }
+            }
+        }
+    }
+    // ---- SmartcoreSpeedGradeModel: loading and prediction in every unit combination
+    for _ in 0..ctx.n(300, 6000) {
+        let Some(idx) = ctx.begin() else { continue };
+        let mut rng = Rng::for_case(ctx.seed, 14, idx as u64);
+        case_sc(ctx, idx, &und, &mut rng);
+    }
+    // ---- load_prediction_model: every arm
+    for _ in 0..ctx.n(300, 6000) {
+        let Some(idx) = ctx.begin() else { continue };
+        let mut rng = Rng::for_case(ctx.seed, 14, idx as u64);
+        case_lpm(ctx, idx, &und, &mut rng);
     }
     // ---- every bundled vehicle with its bundled interpolation configuration
     for b in 0..und.bundled.len() {
